@@ -81,7 +81,7 @@ Theorem program_run s p reg s' r c f :
 Proof.
   intros HB A EC EP EX.
   assert (FR : Fresh c []).
-  { destruct A as (_ & _ & top & EV & RR). left. destruct top as [|x t]; [rewrite EV; reflexivity|]. destruct RR as (_ & N & _). exfalso. apply N. reflexivity. }
+  { destruct A as (_ & _ & top & EV & RR). apply fresh_nil. destruct top as [|x t]; [rewrite EV; reflexivity|]. destruct RR as (_ & N & _). exfalso. apply N. reflexivity. }
   destruct (proj2 (proj2 (proj2 vm_runs)) s RNone p reg s' HB r c f [] [] [] [] A FR) as (r1 & c1 & f1 & rest1 & S1 & A1 & MV & P1 & K1).
   { cbn. rewrite app_nil_r. exact EC. } { exact EP. }
   inversion K1; subst. destruct A1 as ((G1 & EF1 & (F1 & N1) & B1 & D1) & LB1 & top & EV1 & RR).
